@@ -13,8 +13,8 @@ Import ListNotations.
 Open Scope N_scope.
 
 (* Ingestion.  Of the cuts of persist_wal_segment (0: nothing yet, 1: temp file created or partly
-   written, 2: temp file completely written, >= 3: renamed) exactly cut 1 makes recovery hang
-   (finding F8); from every other cut recovery gives the acknowledged requests, or those plus the
+   written, 2: temp file completely written, >= 3: renamed) exactly cut 1 makes recovery fail
+   (finding F8: LocustDB::new panics - before commit b430922 it hung - on the unreadable temp file); from every other cut recovery gives the acknowledged requests, or those plus the
    request in flight - whole, across all the tables it touches, catalogue rows included, because
    they travel in the same segment. *)
 Theorem C09_ingest_cuts :
@@ -22,7 +22,7 @@ Theorem C09_ingest_cuts :
     run true c ops (init c) = Val s ->
     step true c s (OIngest b bytes) = Val s' ->
     match recover_c c (cut (at_rest s) (ingest_effects (next_wal s) bytes (last_batch s')) k) with
-    | RHang => k = 1%nat
+    | RFail => k = 1%nat
     | ROut r => k <> 1%nat /\ good_recovery r (content s) (content s')
     end.
 Proof.
@@ -39,7 +39,7 @@ Definition f8_batch : batch :=
 
 Theorem C09_recoverable_refuted :
   exists s', step true f8_cfg (init f8_cfg) (OIngest f8_batch 200) = Val s' /\
-    recover_c f8_cfg (cut (at_rest (init f8_cfg)) (ingest_effects 0 200 (last_batch s')) 1) = RHang.
+    recover_c f8_cfg (cut (at_rest (init f8_cfg)) (ingest_effects 0 200 (last_batch s')) 1) = RFail.
 Proof. eexists. split; vm_compute; reflexivity. Qed.
 
 (* Flush - batching, partition files, compaction, catalogue replacement, removal of merged-away
@@ -50,7 +50,7 @@ Theorem C09_flush_cuts :
     run true c ops (init c) = Val s ->
     flush_mid true c o s = Val l1 ->
     match recover_c c (cut (at_rest s) (flush_effects s l1) k) with
-    | RHang => False
+    | RFail => False
     | ROut r => good_recovery r (content s) (content s)
     end.
 Proof. intros c ops o s l1 k H F. eapply flush_cuts; eauto. eapply reachable_inv; eauto. Qed.
@@ -80,7 +80,7 @@ Theorem C09_idempotent :
     run true c ops (init c) = Val s ->
     recover_effects s = [] /\
     match recover_c c (cut (at_rest s) (recover_effects s) k) with
-    | RHang => False
+    | RFail => False
     | ROut r => good_recovery r (content s) (content s)
     end /\
     forall s1 s2, recover c s = Val s1 -> recover c s1 = Val s2 ->
